@@ -638,4 +638,750 @@ theorem flatten_canon_perm {K : List Row} (hk : (K.map key).Nodup) : (flatten (c
       simp only [visitsOf, mem_map, mem_filter, beq_iff_eq]
       exact ⟨r, ⟨hr, rfl⟩, rfl⟩
 
+/-! ### first entry per key (`groupby("ID", sort=False).first()`) -/
+
+/-- generic form of `evFirst` / `covFirst` -/
+def firstBy {α} (key : α → Nat) (l : List α) : List α :=
+  (firstIds (l.map key)).filterMap (fun i => l.find? (fun e => key e == i))
+
+theorem evFirst_eq (l : List Event) : evFirst l = firstBy (·.id) l := rfl
+theorem covFirst_eq (l : List (Nat × List Int)) : covFirst l = firstBy (·.1) l := rfl
+
+/-- entries with the same key are equal (what the `nunique().eq(1)` checks establish) -/
+def KeyConsistent {α} (key : α → Nat) (l : List α) : Prop := ∀ a ∈ l, ∀ b ∈ l, key a = key b → a = b
+
+theorem KeyConsistent.perm {α} {key : α → Nat} {l₁ l₂ : List α} (h : l₁.Perm l₂) (hc : KeyConsistent key l₁) :
+    KeyConsistent key l₂ :=
+  fun a ha b hb => hc a (h.mem_iff.2 ha) b (h.mem_iff.2 hb)
+
+private theorem filterMap_find_keys {α} (key : α → Nat) (l : List α) (ids : List Nat) (h : ∀ i ∈ ids, i ∈ l.map key) :
+    (ids.filterMap (fun i => l.find? (fun e => key e == i))).map key = ids := by
+  induction ids with
+  | nil => rfl
+  | cons i is ih =>
+    obtain ⟨x, hx, hk⟩ := mem_map.1 (h i (by simp))
+    have hs : (l.find? (fun e => key e == i)).isSome = true := find?_isSome.2 ⟨x, hx, by simp [hk]⟩
+    obtain ⟨e, he⟩ := Option.isSome_iff_exists.1 hs
+    have hke : key e = i := by simpa using find?_some he
+    simp only [filterMap_cons, he, map_cons, hke]
+    rw [ih (fun j hj => h j (by simp [hj]))]
+
+theorem firstBy_keys {α} (key : α → Nat) (l : List α) : (firstBy key l).map key = firstIds (l.map key) :=
+  filterMap_find_keys key l _ (fun _ hi => mem_firstIds.1 hi)
+
+theorem firstBy_nodup {α} (key : α → Nat) (l : List α) : (firstBy key l).Nodup :=
+  nodup_of_map key (firstBy_keys key l ▸ nodup_firstIds _)
+
+theorem mem_firstBy_sub {α} {key : α → Nat} {l : List α} {e : α} (h : e ∈ firstBy key l) : e ∈ l := by
+  obtain ⟨i, _, hi⟩ := mem_filterMap.1 h
+  exact mem_of_find?_eq_some hi
+
+theorem mem_firstBy {α} {key : α → Nat} {l : List α} (hc : KeyConsistent key l) {e : α} :
+    e ∈ firstBy key l ↔ e ∈ l := by
+  refine ⟨mem_firstBy_sub, fun he => ?_⟩
+  have hs : (l.find? (fun x => key x == key e)).isSome = true := find?_isSome.2 ⟨e, he, by simp⟩
+  obtain ⟨e', he'⟩ := Option.isSome_iff_exists.1 hs
+  have : e' = e := hc e' (mem_of_find?_eq_some he') e he (by simpa using find?_some he')
+  exact mem_filterMap.2 ⟨key e, mem_firstIds.2 (mem_map.2 ⟨e, he, rfl⟩), this ▸ he'⟩
+
+theorem firstBy_perm {α} {key : α → Nat} {l₁ l₂ : List α} (h : l₁.Perm l₂) (hc : KeyConsistent key l₁) :
+    (firstBy key l₁).Perm (firstBy key l₂) := by
+  rw [perm_ext_iff_of_nodup (firstBy_nodup _ _) (firstBy_nodup _ _)]
+  intro e
+  rw [mem_firstBy hc, mem_firstBy (hc.perm h), h.mem_iff]
+
+theorem firstBy_eq_nil {α} {key : α → Nat} {l : List α} : firstBy key l = [] ↔ l = [] := by
+  constructor
+  · intro h
+    have := firstBy_keys key l
+    rw [h] at this
+    cases l with
+    | nil => rfl
+    | cons a t => simp [firstIds] at this
+  · rintro rfl; rfl
+
+theorem firstIds_of_nodup {l : List Nat} (h : l.Nodup) : firstIds l = l := by
+  induction l with
+  | nil => rfl
+  | cons i is ih =>
+    rw [nodup_cons] at h
+    simp only [firstIds, ih h.2, cons.injEq, true_and, filter_eq_self, bne_iff_ne, ne_eq]
+    intro j hj heq
+    exact h.1 (heq ▸ hj)
+
+private theorem eq_of_keys_eq {α} (key : α → Nat) {a l : List α} (hk : a.map key = l.map key)
+    (hm : ∀ x ∈ a, x ∈ l) (hn : (l.map key).Nodup) : a = l := by
+  induction l generalizing a with
+  | nil => simpa using hk
+  | cons y l ih =>
+    cases a with
+    | nil => simp at hk
+    | cons x a =>
+      simp only [map_cons, cons.injEq] at hk
+      simp only [map_cons, nodup_cons, mem_map, not_exists, not_and] at hn
+      have hxy : x = y := by
+        rcases mem_cons.1 (hm x (by simp)) with h | h
+        · exact h
+        · exact absurd hk.1 (hn.1 x h)
+      subst hxy
+      congr 1
+      apply ih hk.2 _ hn.2
+      intro z hz
+      rcases mem_cons.1 (hm z (by simp [hz])) with h | h
+      · subst h
+        have : key z ∈ l.map key := hk.2 ▸ mem_map.2 ⟨z, hz, rfl⟩
+        obtain ⟨w, hw, hkw⟩ := mem_map.1 this
+        exact absurd hkw (hn.1 w hw)
+      · exact h
+
+/-- with one row per key, `first()` is the identity: the table order is kept -/
+theorem firstBy_of_nodup {α} {key : α → Nat} {l : List α} (h : (l.map key).Nodup) : firstBy key l = l :=
+  eq_of_keys_eq key (by rw [firstBy_keys, firstIds_of_nodup h]) (fun _ hx => mem_firstBy_sub hx) h
+
+/-! ### `max()` of a column -/
+
+theorem maxList_le_iff {l : List Nat} {m : Nat} : maxList l ≤ m ↔ ∀ x ∈ l, x ≤ m := by
+  induction l with
+  | nil => simp [maxList]
+  | cons a t ih => simp only [maxList, mem_cons, forall_eq_or_imp, ← ih]; omega
+
+theorem maxList_congr {l₁ l₂ : List Nat} (h : ∀ x, x ∈ l₁ ↔ x ∈ l₂) : maxList l₁ = maxList l₂ := by
+  apply Nat.le_antisymm
+  · exact maxList_le_iff.2 (fun x hx => le_maxList ((h x).1 hx))
+  · exact maxList_le_iff.2 (fun x hx => le_maxList ((h x).2 hx))
+
+theorem maxList_eq_zero {l : List Nat} : maxList l = 0 ↔ ∀ x ∈ l, x = 0 := by
+  have := maxList_le_iff (l := l) (m := 0)
+  simp only [Nat.le_zero_eq] at this
+  exact this
+
+theorem natSum_eq_zero {l : List Nat} : l.sum = 0 ↔ ∀ x ∈ l, x = 0 := by
+  induction l with
+  | nil => simp
+  | cons a t ih => simp only [sum_cons, mem_cons, forall_eq_or_imp, ← ih]; omega
+
+/-! ### the last visit of an individual (`groupby("ID").max()["TIME"]`) -/
+
+private def stepMax (m : Option Int) (a : Int) : Option Int :=
+  match m with | none => some a | some b => some (max a b)
+
+private theorem foldl_stepMax (ages : List Int) (m : Option Int) (a : Int) :
+    ages.foldl stepMax m = some a ↔
+      (a ∈ ages ∨ m = some a) ∧ (∀ b ∈ ages, b ≤ a) ∧ (∀ b, m = some b → b ≤ a) := by
+  induction ages generalizing m with
+  | nil => simp; intro h b hb; rw [h] at hb; cases hb; omega
+  | cons x xs ih =>
+    simp only [foldl_cons, ih, mem_cons, forall_eq_or_imp]
+    cases m with
+    | none =>
+      simp only [stepMax, Option.some.injEq, reduceCtorEq, or_false, forall_eq', false_imp_iff, implies_true, and_true]
+      constructor
+      · rintro ⟨h1, h2, h3⟩
+        refine ⟨?_, h3, h2⟩
+        rcases h1 with h | h
+        · exact Or.inr h
+        · exact Or.inl h.symm
+      · rintro ⟨h1, h2, h3⟩
+        refine ⟨?_, h3, h2⟩
+        rcases h1 with h | h
+        · exact Or.inr h.symm
+        · exact Or.inl h
+    | some b =>
+      simp only [stepMax, Option.some.injEq, forall_eq']
+      constructor
+      · rintro ⟨h1, h2, h3⟩
+        refine ⟨?_, ⟨by omega, h2⟩, by omega⟩
+        rcases h1 with h | h
+        · exact Or.inl (Or.inr h)
+        · by_cases hxb : x ≤ b
+          · right; omega
+          · left; left; omega
+      · rintro ⟨h1, ⟨h2, h3⟩, h4⟩
+        refine ⟨?_, h3, by omega⟩
+        rcases h1 with (h | h) | h
+        · right; omega
+        · exact Or.inl h
+        · right; omega
+
+theorem lastVisit_eq_some_iff {i : Nat} {rows : List Row} {a : Int} :
+    lastVisit i rows = some a ↔ (∃ r ∈ rows, r.id = i ∧ r.age = a) ∧ ∀ r ∈ rows, r.id = i → r.age ≤ a := by
+  have := foldl_stepMax ((rows.filter (fun r => r.id == i)).map (fun r => r.age)) none a
+  simp only [reduceCtorEq, or_false, false_imp_iff, implies_true, and_true, mem_map, mem_filter, beq_iff_eq,
+    forall_exists_index, and_imp] at this
+  unfold lastVisit
+  show foldl stepMax none _ = some a ↔ _
+  rw [this]
+  constructor
+  · rintro ⟨⟨r, ⟨hr, hi⟩, ha⟩, h⟩
+    exact ⟨⟨r, hr, hi, ha⟩, fun s hs hsi => h _ s hs hsi rfl⟩
+  · rintro ⟨⟨r, hr, hi, ha⟩, h⟩
+    exact ⟨⟨r, ⟨hr, hi⟩, ha⟩, fun b s hs hsi hb => hb ▸ h s hs hsi⟩
+
+theorem lastVisit_eq_none_iff {i : Nat} {rows : List Row} : lastVisit i rows = none ↔ ∀ r ∈ rows, r.id ≠ i := by
+  constructor
+  · intro h r hr hi
+    -- a non-empty group has a maximum
+    cases hf : rows.filter (fun r => r.id == i) with
+    | nil =>
+      have : r ∈ rows.filter (fun r => r.id == i) := mem_filter.2 ⟨hr, by simp [hi]⟩
+      rw [hf] at this; cases this
+    | cons x xs =>
+      unfold lastVisit at h
+      rw [hf] at h
+      simp only [map_cons, foldl_cons] at h
+      have : ∀ (l : List Int) (b : Int), foldl (fun m a => match m with | none => some a | some b => some (max a b)) (some b) l ≠ none := by
+        intro l; induction l with
+        | nil => simp
+        | cons y ys ih => intro b; simp only [foldl_cons]; exact ih _
+      exact this _ _ h
+  · intro h
+    have : rows.filter (fun r => r.id == i) = [] := by
+      simp only [filter_eq_nil_iff, beq_iff_eq]; exact fun r hr => h r hr
+    simp [lastVisit, this]
+
+theorem lastVisit_perm {t₁ t₂ : List Row} (h : t₁.Perm t₂) (i : Nat) : lastVisit i t₁ = lastVisit i t₂ := by
+  cases h2 : lastVisit i t₂ with
+  | none =>
+    rw [lastVisit_eq_none_iff] at h2 ⊢
+    exact fun r hr => h2 r (h.mem_iff.1 hr)
+  | some a =>
+    rw [lastVisit_eq_some_iff] at h2 ⊢
+    obtain ⟨⟨r, hr, hri⟩, hmax⟩ := h2
+    exact ⟨⟨r, h.mem_iff.2 hr, hri⟩, fun s hs => hmax s (h.mem_iff.1 hs)⟩
+
+
+/-! ### events -/
+
+/-- relation between the outcomes of two runs: the same rejection, or results related by `R` -/
+def ExceptRel {α β} (R : α → β → Prop) : Except Err α → Except Err β → Prop
+  | .error e, .error e' => e = e'
+  | .ok a, .ok b => R a b
+  | _, _ => False
+
+theorem ExceptRel.error_iff {α β} {R : α → β → Prop} {x : Except Err α} {y : Except Err β} (h : ExceptRel R x y) (e : Err) :
+    x = .error e ↔ y = .error e := by
+  cases x <;> cases y <;> simp_all [ExceptRel]
+
+theorem ExceptRel.ok_imp {α β} {R : α → β → Prop} {x : Except Err α} {y : Except Err β} (h : ExceptRel R x y) {a : α}
+    (hx : x = .ok a) : ∃ b, y = .ok b ∧ R a b := by
+  cases x <;> cases y <;> simp_all [ExceptRel]
+
+/-- rows of an event table that survive `dropna(how="all")` -/
+def evKept (rows : List EvRow) : List EvRow := rows.filter (fun r => !(r.time == .nan && r.code == .nan))
+
+/-- the integer indicator of an acceptable `EVENT_BOOL` cell (the fall-back value is never used: the function is
+    only applied to cells that passed `evCodeOk`) -/
+def evCode : Cell Rat → Nat
+  | .fin q => q.num.toNat
+  | _ => 0
+
+/-- the event read from a row whose cells passed `evTimeOk` and `evCodeOk` -/
+def evOf (r : EvRow) : Event :=
+  ⟨r.id, (match r.time with | .fin t => t | _ => 0), evCode r.code⟩
+
+/-- a row of the table as an event would be written back -/
+def rowOfEvent (e : Event) : EvRow := ⟨e.id, .fin e.time, .fin ((e.code : Int) : Rat)⟩
+
+theorem evOf_id (r : EvRow) : (evOf r).id = r.id := rfl
+
+theorem evCell_eq {r : EvRow} (ht : evTimeOk r = true) (hc : evCodeOk r = true) : evCell r = .ok (evOf r) := by
+  obtain ⟨i, t, c⟩ := r
+  cases t with
+  | fin t =>
+    cases c with
+    | fin q =>
+      simp only [evTimeOk, decide_eq_true_eq] at ht
+      simp only [evCodeOk, Bool.and_eq_true, beq_iff_eq, decide_eq_true_eq] at hc
+      simp only [evCell, evOf, evCode]
+      have h2 : (q.den != 1 || decide (q.num < 0)) = false := by simp [hc.1, hc.2]
+      rw [if_neg (by omega), h2]; rfl
+    | nan => simp [evCodeOk] at hc
+    | inf => simp [evCodeOk] at hc
+  | nan => simp [evTimeOk] at ht
+  | inf => simp [evTimeOk] at ht
+
+theorem evConv_eq {rows : List EvRow} (h : ∀ r ∈ rows, evTimeOk r = true ∧ evCodeOk r = true) :
+    evConv rows = .ok (rows.map evOf) := by
+  induction rows with
+  | nil => rfl
+  | cons r rs ih =>
+    have hr := h r (by simp)
+    simp [evConv, evCell_eq hr.1 hr.2, ih (fun s hs => h s (by simp [hs]))]
+
+theorem evCells_eq (rows : List EvRow) : evCells rows =
+    if !rows.all evTimeOk then .error .eventTime
+    else if !rows.all evCodeOk then .error .eventCode
+    else .ok (rows.map evOf) := by
+  unfold evCells
+  by_cases h1 : rows.all evTimeOk = true
+  · by_cases h2 : rows.all evCodeOk = true
+    · simp only [h1, h2, Bool.not_true, Bool.false_eq_true, ↓reduceIte]
+      exact evConv_eq (fun r hr => ⟨all_eq_true.1 h1 r hr, all_eq_true.1 h2 r hr⟩)
+    · simp [h1, h2]
+  · simp [h1]
+
+theorem evOf_toRow {r : EvRow} (ht : evTimeOk r = true) (hc : evCodeOk r = true) : rowOfEvent (evOf r) = r := by
+  obtain ⟨i, t, c⟩ := r
+  cases t with
+  | fin t =>
+    cases c with
+    | fin q =>
+      simp only [evCodeOk, Bool.and_eq_true, beq_iff_eq, decide_eq_true_eq] at hc
+      simp only [rowOfEvent, evOf, evCode, EvRow.mk.injEq, Cell.fin.injEq, true_and]
+      apply Rat.ext
+      · rw [Rat.num_intCast]; omega
+      · rw [Rat.den_intCast, hc.1]
+    | nan => simp [evCodeOk] at hc
+    | inf => simp [evCodeOk] at hc
+  | nan => simp [evTimeOk] at ht
+  | inf => simp [evTimeOk] at ht
+
+theorem evConsistent_iff {l : List Event} : evConsistent l = true ↔ KeyConsistent (·.id) l := by
+  simp only [evConsistent, all_eq_true, Bool.or_eq_true, bne_iff_ne, ne_eq, Bool.and_eq_true, beq_iff_eq, KeyConsistent]
+  constructor
+  · intro h a ha b hb hid
+    rcases h a ha b hb with h | h
+    · exact absurd hid h
+    · cases a; cases b; simp_all
+  · intro h a ha b hb
+    by_cases hid : a.id = b.id
+    · right; have := h a ha b hb hid; subst this; exact ⟨rfl, rfl⟩
+    · left; exact hid
+
+theorem evConsistent_perm {l₁ l₂ : List Event} (h : l₁.Perm l₂) : evConsistent l₁ = evConsistent l₂ := by
+  have : evConsistent l₁ = true ↔ evConsistent l₂ = true := by
+    rw [evConsistent_iff, evConsistent_iff]
+    exact ⟨fun hc => hc.perm h, fun hc => hc.perm h.symm⟩
+  cases h1 : evConsistent l₁ <;> cases h2 : evConsistent l₂ <;> simp_all
+
+/-- the admissible combinations of the `nb_events` argument and the largest indicator of the table -/
+def CountOk (nbArg : Option Nat) (codes : List Nat) : Prop :=
+  match nbArg with
+  | some (n + 1) => maxList codes = n + 1 ∨ maxList codes = 0
+  | _ => maxList codes ≠ 0
+
+instance (nbArg : Option Nat) (codes : List Nat) : Decidable (CountOk nbArg codes) := by
+  unfold CountOk; split <;> infer_instance
+
+/-- the number of events of an accepted table -/
+def countOf (nbArg : Option Nat) (codes : List Nat) : Nat :=
+  match nbArg with
+  | some (n + 1) => n + 1
+  | _ => maxList codes
+
+theorem evCount_ok_iff {nbArg : Option Nat} {l : List Event} {n : Nat} :
+    evCount nbArg l = .ok n ↔ CountOk nbArg (l.map (·.code)) ∧ n = countOf nbArg (l.map (·.code)) := by
+  unfold evCount CountOk countOf
+  split
+  · rename_i k
+    by_cases h1 : k + 1 = maxList (l.map (·.code))
+    · simp [← h1]; omega
+    · by_cases h2 : maxList (l.map (·.code)) = 0
+      · simp [h2]; omega
+      · simp [h1, h2]; omega
+  · by_cases h2 : maxList (l.map (·.code)) = 0
+    · simp [h2]
+    · simp [h2]; omega
+
+theorem evCount_congr {nbArg : Option Nat} {l₁ l₂ : List Event} (h : ∀ e, e ∈ l₁ ↔ e ∈ l₂) :
+    evCount nbArg l₁ = evCount nbArg l₂ := by
+  have : maxList (l₁.map (·.code)) = maxList (l₂.map (·.code)) := by
+    apply maxList_congr
+    intro x
+    simp only [mem_map]
+    exact ⟨fun ⟨e, he, hx⟩ => ⟨e, (h e).1 he, hx⟩, fun ⟨e, he, hx⟩ => ⟨e, (h e).2 he, hx⟩⟩
+  unfold evCount
+  simp only [this]
+
+theorem ingestEvents_eq (nbArg : Option Nat) (rows : List EvRow) : ingestEvents nbArg rows =
+    if !rows.all evTimeOk then .error .eventTime
+    else if !rows.all evCodeOk then .error .eventCode
+    else if !evConsistent (rows.map evOf) then .error .eventUnique
+    else if rows.isEmpty then .error .noRow
+    else match evCount nbArg (rows.map evOf) with
+      | .error e => .error e
+      | .ok nb => .ok (evFirst (rows.map evOf), nb) := by
+  unfold ingestEvents
+  rw [evCells_eq]
+  by_cases h1 : rows.all evTimeOk = true
+  · by_cases h2 : rows.all evCodeOk = true
+    · simp only [h1, h2, Bool.not_true, Bool.false_eq_true, ↓reduceIte]
+      by_cases h3 : evConsistent (rows.map evOf) = true
+      · have he : (evFirst (rows.map evOf)).isEmpty = rows.isEmpty := by
+          cases rows with
+          | nil => rfl
+          | cons r rs =>
+            have : evFirst ((r :: rs).map evOf) ≠ [] := by
+              rw [evFirst_eq, Ne, firstBy_eq_nil]; simp
+            cases hf : evFirst ((r :: rs).map evOf) <;> simp_all
+        have hc : evCount nbArg (evFirst (rows.map evOf)) = evCount nbArg (rows.map evOf) :=
+          evCount_congr (fun e => by rw [evFirst_eq]; exact mem_firstBy (evConsistent_iff.1 h3))
+        simp only [h3, Bool.not_true, Bool.false_eq_true, ↓reduceIte, he, hc]
+        by_cases h4 : rows.isEmpty = true
+        · simp [h4]
+        · simp only [h4, Bool.false_eq_true, ↓reduceIte]
+          cases evCount nbArg (rows.map evOf) <;> rfl
+      · simp [h3]
+    · simp [h1, h2]
+  · simp [h1]
+
+theorem ingestEvents_perm (nbArg : Option Nat) {l₁ l₂ : List EvRow} (h : l₁.Perm l₂) :
+    ExceptRel (fun a b => a.1.Perm b.1 ∧ a.2 = b.2) (ingestEvents nbArg l₁) (ingestEvents nbArg l₂) := by
+  rw [ingestEvents_eq, ingestEvents_eq, h.all_eq, h.all_eq, evConsistent_perm (h.map evOf), h.isEmpty_eq,
+    evCount_congr (l₁ := l₁.map evOf) (l₂ := l₂.map evOf) (fun e => (h.map evOf).mem_iff)]
+  by_cases h1 : l₂.all evTimeOk = true
+  · by_cases h2 : l₂.all evCodeOk = true
+    · by_cases h3 : evConsistent (l₂.map evOf) = true
+      · by_cases h4 : l₂.isEmpty = true
+        · simp [h1, h2, h3, h4, ExceptRel]
+        · simp only [h1, h2, h3, h4, Bool.not_true, Bool.false_eq_true, ↓reduceIte]
+          cases evCount nbArg (l₂.map evOf) with
+          | error e => simp [ExceptRel]
+          | ok n =>
+            simp only [ExceptRel, and_true]
+            rw [evFirst_eq, evFirst_eq]
+            exact firstBy_perm (h.map evOf) ((evConsistent_iff.1 h3).perm (h.map evOf).symm)
+      · simp [h1, h2, h3, ExceptRel]
+    · simp [h1, h2, ExceptRel]
+  · simp [h1, ExceptRel]
+
+/-! ### joint layout -/
+
+/-- rows of a joint table that survive `dropna(how="all")` (features and the two event columns) -/
+def jKept (rows : List JRow) : List JRow := rows.filter (fun r => !jDropped r)
+
+/-- the event part of a row -/
+def jEv (r : JRow) : EvRow := ⟨r.row.id, r.time, r.code⟩
+
+theorem jKept_perm {t₁ t₂ : List JRow} (h : t₁.Perm t₂) : (jKept t₁).Perm (jKept t₂) := h.filter _
+
+/-- the cross check refuses iff some uncensored event is earlier, by more than the tolerance, than *some* visit
+    of its individual (equivalently: than the latest one) -/
+theorem jointCross_iff {evs : List Event} {rows : List Row} :
+    jointCross evs rows = true ↔
+      ∀ e ∈ evs, ∀ r ∈ rows, r.id = e.id → e.time - r.age < -tolMicro → e.code = 0 := by
+  simp only [jointCross, beq_iff_eq, natSum_eq_zero, mem_map, mem_filter, forall_exists_index, and_imp]
+  constructor
+  · intro h e he r hr hid hlt
+    apply h e.code e he _ rfl
+    cases hl : lastVisit e.id rows with
+    | none => exact absurd hid (lastVisit_eq_none_iff.1 hl r hr)
+    | some a =>
+      have := (lastVisit_eq_some_iff.1 hl).2 r hr hid
+      simp only [decide_eq_true_eq]; omega
+  · intro h x e he hb hx
+    subst hx
+    cases hl : lastVisit e.id rows with
+    | none => rw [hl] at hb; cases hb
+    | some a =>
+      rw [hl] at hb
+      obtain ⟨r, hr, hid, ha⟩ := (lastVisit_eq_some_iff.1 hl).1
+      exact h e he r hr hid (by simp only [decide_eq_true_eq] at hb; omega)
+
+theorem jointCross_perm {e₁ e₂ : List Event} {t₁ t₂ : List Row} (he : e₁.Perm e₂) (ht : t₁.Perm t₂) :
+    jointCross e₁ t₁ = jointCross e₂ t₂ := by
+  have : jointCross e₁ t₁ = true ↔ jointCross e₂ t₂ = true := by
+    rw [jointCross_iff, jointCross_iff]
+    exact ⟨fun h e hm r hr => h e (he.mem_iff.2 hm) r (ht.mem_iff.2 hr),
+      fun h e hm r hr => h e (he.mem_iff.1 hm) r (ht.mem_iff.1 hr)⟩
+  cases h1 : jointCross e₁ t₁ <;> cases h2 : jointCross e₂ t₂ <;> simp_all
+
+theorem nodup_keys_map_filter {α} (f : α → Row) (p : α → Bool) {rows : List α} (h : ((rows.map f).map key).Nodup) :
+    (((rows.filter p).map f).map key).Nodup :=
+  h.sublist ((filter_sublist.map f).map key)
+
+theorem ingestJoint_eq (dim : Nat) (nbArg : Option Nat) (rows : List JRow) : ingestJoint dim nbArg rows =
+    if rowKeyDup (rows.map (·.row)) then .error .duplicate else
+    if rows.any (fun r => r.time == .inf || r.code == .inf) then .error .valueInf else
+    if (jKept rows).isEmpty then .error .noRow else
+    if dim < 1 then .error .noFeature else
+    match ingestEvents nbArg ((jKept rows).map jEv) with
+    | .error e => .error e
+    | .ok (evs, nb) =>
+      if !jointCross evs ((jKept rows).map (·.row)) then .error .eventBefore
+      else .ok (canon ((jKept rows).map (·.row)), evs, nb) := by
+  unfold ingestJoint
+  cases hd : rowKeyDup (rows.map (·.row))
+  · have hk := nodup_keys_map_filter (fun r : JRow => r.row) (fun r => !jDropped r) (rowKeyDup_false_iff.1 hd)
+    simp only [Bool.false_eq_true, ↓reduceIte, isEmpty_map, jKept]
+    by_cases h1 : (rows.any (fun r => r.time == .inf || r.code == .inf)) = true
+    · simp [h1]
+    · by_cases h2 : (filter (fun r => !jDropped r) rows).isEmpty = true
+      · simp [h1, h2]
+      · by_cases h3 : dim < 1
+        · simp [h1, h2, h3]
+        · simp only [h1, h2, h3, Bool.false_eq_true, ↓reduceIte]
+          unfold jEv
+          generalize ingestEvents nbArg _ = x
+          cases x with
+          | error e => rfl
+          | ok res =>
+            obtain ⟨evs, nb⟩ := res
+            simp only
+            by_cases h4 : jointCross evs ((filter (fun r => !jDropped r) rows).map (fun r => r.row)) = true
+            · simp only [h4, Bool.not_true, Bool.false_eq_true, ↓reduceIte]
+              rw [loadAll_eq_canon hk]
+            · simp [h4]
+  · simp
+
+/-! ### covariate layout -/
+
+/-- rows of a covariate table that survive `dropna(how="all")` (features and covariates) -/
+def cKept (rows : List CRow) : List CRow := rows.filter (fun r => !cDropped r)
+
+theorem cKept_perm {t₁ t₂ : List CRow} (h : t₁.Perm t₂) : (cKept t₁).Perm (cKept t₂) := h.filter _
+
+/-- the integer value of an acceptable covariate cell (the fall-back value is never used: the function is only
+    applied to cells that are finite and passed `covIntOk`) -/
+def covNum : Cell Rat → Int
+  | .fin q => q.num
+  | _ => 0
+
+def covOf (r : CRow) : Nat × List Int := (r.row.id, r.covs.map covNum)
+
+/-- a covariate cell the reader accepts: finite and integer valued -/
+def CovCellOk (c : Cell Rat) : Prop := c ≠ .nan ∧ c ≠ .inf ∧ covIntOk c = true
+
+instance (c : Cell Rat) : Decidable (CovCellOk c) := by unfold CovCellOk; infer_instance
+
+theorem covCell_eq {c : Cell Rat} (h : CovCellOk c) : covCell c = .ok (covNum c) := by
+  obtain ⟨h1, h2, h3⟩ := h
+  cases c with
+  | fin q => simp only [covIntOk, beq_iff_eq] at h3; simp [covCell, covNum, h3]
+  | nan => exact absurd rfl h1
+  | inf => exact absurd rfl h2
+
+theorem covCells_eq {cs : List (Cell Rat)} (h : ∀ c ∈ cs, CovCellOk c) : covCells cs = .ok (cs.map covNum) := by
+  induction cs with
+  | nil => rfl
+  | cons c cs ih => simp [covCells, covCell_eq (h c (by simp)), ih (fun d hd => h d (by simp [hd]))]
+
+theorem covConv_eq {rows : List CRow} (h : ∀ r ∈ rows, ∀ c ∈ r.covs, CovCellOk c) :
+    covConv rows = .ok (rows.map covOf) := by
+  induction rows with
+  | nil => rfl
+  | cons r rs ih =>
+    simp [covConv, covCells_eq (h r (by simp)), ih (fun s hs => h s (by simp [hs])), covOf]
+
+theorem covRows_eq {rows : List CRow} (hinf : ∀ r ∈ rows, ∀ c ∈ r.covs, c ≠ .inf) : covRows rows =
+    if rows.any (fun r => r.covs.any (fun c => c == .nan)) then .error .covMissing
+    else if rows.any (fun r => r.covs.any (fun c => !covIntOk c)) then .error .covInteger
+    else .ok (rows.map covOf) := by
+  unfold covRows
+  by_cases h1 : rows.any (fun r => r.covs.any (fun c => c == .nan)) = true
+  · simp [h1]
+  · by_cases h2 : rows.any (fun r => r.covs.any (fun c => !covIntOk c)) = true
+    · simp [h1, h2]
+    · simp only [h1, h2, Bool.false_eq_true, ↓reduceIte]
+      apply covConv_eq
+      intro r hr c hc
+      simp only [Bool.not_eq_true, any_eq_false, beq_iff_eq, Bool.not_eq_eq_eq_not, Bool.not_true] at h1 h2
+      refine ⟨fun hn => ?_, hinf r hr c hc, ?_⟩
+      · have := h1 r hr c hc; simp [hn] at this
+      · have := h2 r hr c hc; simpa using this
+
+theorem covConsistent_iff {l : List (Nat × List Int)} : covConsistent l = true ↔ KeyConsistent (·.1) l := by
+  simp only [covConsistent, all_eq_true, Bool.or_eq_true, bne_iff_ne, ne_eq, beq_iff_eq, KeyConsistent]
+  constructor
+  · intro h a ha b hb hid
+    rcases h a ha b hb with h | h
+    · exact absurd hid h
+    · exact Prod.ext hid h
+  · intro h a ha b hb
+    by_cases hid : a.1 = b.1
+    · right; rw [h a ha b hb hid]
+    · left; exact hid
+
+theorem covConsistent_perm {l₁ l₂ : List (Nat × List Int)} (h : l₁.Perm l₂) : covConsistent l₁ = covConsistent l₂ := by
+  have : covConsistent l₁ = true ↔ covConsistent l₂ = true := by
+    rw [covConsistent_iff, covConsistent_iff]
+    exact ⟨fun hc => hc.perm h, fun hc => hc.perm h.symm⟩
+  cases h1 : covConsistent l₁ <;> cases h2 : covConsistent l₂ <;> simp_all
+
+theorem covVaries_iff {n : Nat} {l : List (Nat × List Int)} :
+    covVaries n l = true ↔ ∀ k, k < n → ∃ a ∈ l, ∃ b ∈ l, a.2[k]? ≠ b.2[k]? := by
+  simp [covVaries]
+
+theorem covVaries_congr {n : Nat} {l₁ l₂ : List (Nat × List Int)} (h : ∀ x, x ∈ l₁ ↔ x ∈ l₂) :
+    covVaries n l₁ = covVaries n l₂ := by
+  have : covVaries n l₁ = true ↔ covVaries n l₂ = true := by
+    rw [covVaries_iff, covVaries_iff]
+    constructor
+    · intro hv k hk
+      obtain ⟨a, ha, b, hb, hne⟩ := hv k hk
+      exact ⟨a, (h a).1 ha, b, (h b).1 hb, hne⟩
+    · intro hv k hk
+      obtain ⟨a, ha, b, hb, hne⟩ := hv k hk
+      exact ⟨a, (h a).2 ha, b, (h b).2 hb, hne⟩
+  cases h1 : covVaries n l₁ <;> cases h2 : covVaries n l₂ <;> simp_all
+
+theorem ingestCov_eq (dim nCov : Nat) (rows : List CRow) : ingestCov dim nCov rows =
+    if nCov < 1 then .error .covNone else
+    if rowKeyDup (rows.map (·.row)) then .error .duplicate else
+    if rows.any (fun r => r.covs.any (fun c => c == .inf)) then .error .valueInf else
+    if (cKept rows).isEmpty then .error .noRow else
+    if dim < 1 then .error .noFeature else
+    if (cKept rows).any (fun r => r.covs.any (fun c => c == .nan)) then .error .covMissing else
+    if (cKept rows).any (fun r => r.covs.any (fun c => !covIntOk c)) then .error .covInteger else
+    if !covConsistent ((cKept rows).map covOf) then .error .covUnique else
+    if !covVaries nCov ((cKept rows).map covOf) then .error .covConstant else
+    .ok (canon ((cKept rows).map (·.row)), covFirst ((cKept rows).map covOf)) := by
+  unfold ingestCov
+  by_cases h0 : nCov < 1
+  · simp [h0]
+  cases hd : rowKeyDup (rows.map (·.row))
+  · have hk := nodup_keys_map_filter (fun r : CRow => r.row) (fun r => !cDropped r) (rowKeyDup_false_iff.1 hd)
+    simp only [h0, Bool.false_eq_true, ↓reduceIte, isEmpty_map, cKept]
+    by_cases h1 : (rows.any (fun r => r.covs.any (fun c => c == .inf))) = true
+    · simp [h1]
+    · have hinf : ∀ r ∈ filter (fun r => !cDropped r) rows, ∀ c ∈ r.covs, c ≠ .inf := by
+        intro r hr c hc heq
+        apply h1
+        exact any_eq_true.2 ⟨r, (mem_filter.1 hr).1, any_eq_true.2 ⟨c, hc, by simp [heq]⟩⟩
+      by_cases h2 : (filter (fun r => !cDropped r) rows).isEmpty = true
+      · simp [h1, h2]
+      · by_cases h3 : dim < 1
+        · simp [h1, h2, h3]
+        · simp only [h1, h2, h3, Bool.false_eq_true, ↓reduceIte]
+          rw [covRows_eq hinf]
+          by_cases h4 : (filter (fun r => !cDropped r) rows).any (fun r => r.covs.any (fun c => c == .nan)) = true
+          · simp [h4]
+          · by_cases h5 : (filter (fun r => !cDropped r) rows).any (fun r => r.covs.any (fun c => !covIntOk c)) = true
+            · simp [h4, h5]
+            · simp only [h4, h5, Bool.false_eq_true, ↓reduceIte]
+              by_cases h6 : covConsistent ((filter (fun r => !cDropped r) rows).map covOf) = true
+              · have hv : covVaries nCov (covFirst ((filter (fun r => !cDropped r) rows).map covOf)) =
+                    covVaries nCov ((filter (fun r => !cDropped r) rows).map covOf) :=
+                  covVaries_congr (fun x => by rw [covFirst_eq]; exact mem_firstBy (covConsistent_iff.1 h6))
+                simp only [h6, hv, Bool.not_true, Bool.false_eq_true, ↓reduceIte]
+                by_cases h7 : covVaries nCov ((filter (fun r => !cDropped r) rows).map covOf) = true
+                · simp only [h7, Bool.not_true, Bool.false_eq_true, ↓reduceIte]
+                  rw [loadAll_eq_canon hk]
+                · simp [h7]
+              · simp [h6]
+  · simp [h0]
+
+/-! ### acceptance in closed form -/
+
+theorem eq_of_nodup_map {α β} (f : α → β) {l : List α} (h : (l.map f).Nodup) {x y : α} (hx : x ∈ l) (hy : y ∈ l)
+    (hf : f x = f y) : x = y := by
+  induction l with
+  | nil => cases hx
+  | cons a t ih =>
+    simp only [map_cons, nodup_cons, mem_map, not_exists, not_and] at h
+    rcases mem_cons.1 hx with hxa | hx' <;> rcases mem_cons.1 hy with hya | hy'
+    · rw [hxa, hya]
+    · rw [hxa] at hf; exact absurd hf.symm (h.1 y hy')
+    · rw [hya] at hf; exact absurd hf (h.1 x hx')
+    · exact ih h.2 hx' hy'
+
+theorem evIdDup_false_iff {rows : List EvRow} : evIdDup rows = false ↔ (rows.map (·.id)).Nodup := by
+  induction rows with
+  | nil => simp [evIdDup]
+  | cons r rs ih =>
+    simp only [evIdDup, Bool.or_eq_false_iff, ih, map_cons, nodup_cons, mem_map, not_exists, not_and, any_eq_false,
+      beq_iff_eq]
+
+theorem evOf_inj {r s : EvRow} (hr : evTimeOk r = true ∧ evCodeOk r = true) (hs : evTimeOk s = true ∧ evCodeOk s = true)
+    (h : evOf r = evOf s) : r = s := by
+  rw [← evOf_toRow hr.1 hr.2, ← evOf_toRow hs.1 hs.2, h]
+
+theorem ingestEvents_ok_iff {nbArg : Option Nat} {rows : List EvRow} {res : List Event × Nat} :
+    ingestEvents nbArg rows = .ok res ↔
+      (∀ r ∈ rows, evTimeOk r = true ∧ evCodeOk r = true) ∧ KeyConsistent (·.id) (rows.map evOf) ∧ rows ≠ [] ∧
+      CountOk nbArg (rows.map (fun r => evCode r.code)) ∧
+      res = (evFirst (rows.map evOf), countOf nbArg (rows.map (fun r => evCode r.code))) := by
+  rw [ingestEvents_eq]
+  have hcodes : (rows.map evOf).map (·.code) = rows.map (fun r => evCode r.code) := by
+    rw [map_map]; rfl
+  by_cases h1 : rows.all evTimeOk = true
+  · by_cases h2 : rows.all evCodeOk = true
+    · have h12 : ∀ r ∈ rows, evTimeOk r = true ∧ evCodeOk r = true :=
+        fun r hr => ⟨all_eq_true.1 h1 r hr, all_eq_true.1 h2 r hr⟩
+      by_cases h3 : evConsistent (rows.map evOf) = true
+      · have h3' := evConsistent_iff.1 h3
+        by_cases h4 : rows.isEmpty = true
+        · have : rows = [] := isEmpty_iff.1 h4
+          subst this
+          simp [evConsistent]
+        · have h4' : rows ≠ [] := fun h => h4 (isEmpty_iff.2 h)
+          simp only [h1, h2, h3, h4, Bool.not_true, Bool.false_eq_true, ↓reduceIte]
+          cases hc : evCount nbArg (rows.map evOf) with
+          | error e =>
+            simp only [reduceCtorEq, false_iff, not_and]
+            intro _ _ _ hcnt
+            have := (evCount_ok_iff (nbArg := nbArg) (l := rows.map evOf) (n := countOf nbArg (rows.map (fun r => evCode r.code)))).2
+              ⟨hcodes ▸ hcnt, by rw [hcodes]⟩
+            rw [hc] at this; cases this
+          | ok n =>
+            obtain ⟨hcnt, hn⟩ := evCount_ok_iff.1 hc
+            rw [hcodes] at hcnt hn
+            simp only [Except.ok.injEq]
+            constructor
+            · intro h; exact ⟨h12, h3', h4', hcnt, by rw [← h, hn]⟩
+            · rintro ⟨_, _, _, _, h⟩; rw [h, hn]
+      · simp only [h1, h2, h3, Bool.not_true, Bool.false_eq_true, ↓reduceIte, Bool.not_false, reduceCtorEq, false_iff,
+          not_and]
+        intro _ hk
+        exact absurd (evConsistent_iff.2 hk) h3
+    · have h2' : rows.all evCodeOk = false := by simpa using h2
+      simp only [h1, h2', Bool.not_true, Bool.not_false, Bool.false_eq_true, ↓reduceIte, reduceCtorEq, false_iff, not_and]
+      intro h
+      exact absurd (all_eq_true.2 (fun r hr => (h r hr).2)) h2
+  · have h1' : rows.all evTimeOk = false := by simpa using h1
+    simp only [h1', Bool.not_false, ↓reduceIte, reduceCtorEq, false_iff, not_and]
+    intro h
+    exact absurd (all_eq_true.2 (fun r hr => (h r hr).1)) h1
+
+theorem ingestEventTable_eq (nbArg : Option Nat) (rows : List EvRow) : ingestEventTable nbArg rows =
+    if evIdDup rows then .error .duplicate
+    else if rows.any evHasInf then .error .valueInf
+    else ingestEvents nbArg (evKept rows) := rfl
+
+/-- the integer covariates are the same iff the cells are the same, for cells the reader accepts -/
+theorem covNum_inj {c d : Cell Rat} (hc : CovCellOk c) (hd : CovCellOk d) (h : covNum c = covNum d) : c = d := by
+  obtain ⟨c1, c2, c3⟩ := hc
+  obtain ⟨d1, d2, d3⟩ := hd
+  cases c with
+  | fin p =>
+    cases d with
+    | fin q =>
+      simp only [covIntOk, beq_iff_eq] at c3 d3
+      simp only [covNum] at h
+      rw [Rat.ext h (c3.trans d3.symm)]
+    | nan => exact absurd rfl d1
+    | inf => exact absurd rfl d2
+  | nan => exact absurd rfl c1
+  | inf => exact absurd rfl c2
+
+theorem map_covNum_inj {l₁ l₂ : List (Cell Rat)} (h₁ : ∀ c ∈ l₁, CovCellOk c) (h₂ : ∀ c ∈ l₂, CovCellOk c)
+    (h : l₁.map covNum = l₂.map covNum) : l₁ = l₂ := by
+  induction l₁ generalizing l₂ with
+  | nil => cases l₂ <;> simp_all
+  | cons a t ih =>
+    cases l₂ with
+    | nil => simp at h
+    | cons b u =>
+      simp only [map_cons, cons.injEq] at h
+      rw [covNum_inj (h₁ a (by simp)) (h₂ b (by simp)) h.1,
+        ih (fun c hc => h₁ c (by simp [hc])) (fun c hc => h₂ c (by simp [hc])) h.2]
+
+theorem getElem?_covNum_ne {l₁ l₂ : List (Cell Rat)} (h₁ : ∀ c ∈ l₁, CovCellOk c) (h₂ : ∀ c ∈ l₂, CovCellOk c) (k : Nat) :
+    (l₁.map covNum)[k]? ≠ (l₂.map covNum)[k]? ↔ l₁[k]? ≠ l₂[k]? := by
+  simp only [getElem?_map, ne_eq]
+  constructor
+  · intro h heq; exact h (by rw [heq])
+  · intro h heq
+    apply h
+    cases ha : l₁[k]? with
+    | none => cases hb : l₂[k]? with
+      | none => rfl
+      | some b => rw [ha, hb] at heq; cases heq
+    | some a => cases hb : l₂[k]? with
+      | none => rw [ha, hb] at heq; cases heq
+      | some b =>
+        rw [ha, hb] at heq
+        simp only [Option.map_some, Option.some.injEq] at heq
+        rw [covNum_inj (h₁ a (mem_of_getElem? ha)) (h₂ b (mem_of_getElem? hb)) heq]
+
 end LeaspyVerif.IngestLemmas
